@@ -237,6 +237,8 @@ class Facts:
                 for st in walk_stmts(f['body']):
                     if st.get('k') == 'for':
                         _desugar_iterator_loop(st)
+                    if st.get('k') == 'for':
+                        _iterator_to_index_loop(st)
         # one spelling for 'is the key in the container': a local iterator from find() that is only compared with end(),
         # dereferenced or handed back to erase() reads as contains(k) / X[k] / erase(k); count(k) of a unique-key container
         # reads as contains(k)
@@ -379,6 +381,127 @@ def walk_stmts(s):
 
 
 _SYNTH = [10 ** 9]
+
+
+def _iterator_to_index_loop(st):
+    """for (auto it = v.begin(); it != v.end(); ++it) over a std::vector, where `it` is also used as a position (it - v.begin(),
+    subrange(it, v.end())): the same loop counted by an index:  it  ==>  v.begin() + i,  it - v.begin()  ==>  i,  *it  ==>  v[i]."""
+    init = st.get('init')
+    if not init or init.get('k') != 'decl' or len(init.get('vars', [])) != 1 or st.get('c') is None or st.get('inc') is None:
+        return
+    it = init['vars'][0]
+    i0 = strip_conv(strip_casts(it.get('init'))) if it.get('init') is not None else None
+    if i0 is None or i0.get('k') != 'call' or (i0.get('callee') or '').split('::')[-1] not in ('begin', 'cbegin') or i0.get('obj') is None:
+        return
+    cont = i0['obj']
+    cty = (strip_casts(cont).get('cty') or '').replace('const ', '')
+    if not cty.startswith('std::vector<'):
+        return
+    c = strip_casts(st['c'])
+    sides = None
+    if c.get('k') == 'bin' and c.get('op') == '!=':
+        sides = (c['l'], c['r'])
+    elif c.get('k') == 'call' and c.get('op') == '!=':
+        sides = ((c['obj'], c['args'][0]) if c.get('obj') is not None else tuple(c['args'][:2]))
+    if not sides or len(sides) != 2:
+        return
+    a, b = strip_conv(strip_casts(sides[0])), strip_conv(strip_casts(sides[1]))
+    if b is not None and b.get('k') == 'ref' and b.get('d') == it['d']:
+        a, b = b, a
+    if not (a is not None and a.get('k') == 'ref' and a.get('d') == it['d'] and b is not None and b.get('k') == 'call' and
+            (b.get('callee') or '').split('::')[-1] in ('end', 'cend') and b.get('obj') is not None and show(strip_casts(b['obj'])) == show(strip_casts(cont))):
+        return
+    inc = strip_casts(st['inc'])
+    tgt = inc.get('e') if inc.get('k') == 'un' and inc.get('op') == '++' else (inc.get('obj') if inc.get('k') == 'call' and inc.get('op') == '++' and not
+                                                                              [x for x in inc.get('args', []) if x.get('k') != 'int'] else None)
+    if tgt is None or strip_casts(tgt).get('d') != it['d']:
+        return
+    # the iterator is not written in the body and the container is not resized there
+    for x in walk_all_exprs(st.get('body')):
+        t2 = None
+        if x.get('k') == 'assign':
+            t2 = strip_casts(x['l'])
+        elif x.get('k') == 'un' and x.get('op') in ('++', '--'):
+            t2 = strip_casts(x['e'])
+        elif x.get('k') == 'call' and x.get('obj') is not None and ((x.get('callee') or '').split('::')[-1] in _STD_MUTATORS or x.get('op') in ('++', '--', '+=', '-=', '=')):
+            t2 = strip_casts(x['obj'])
+        if t2 is not None and (t2.get('d') == it['d'] or (show(t2) == show(strip_casts(cont)) and x.get('k') == 'call' and (x.get('callee') or '').split('::')[-1] in _STD_MUTATORS)):
+            return
+    _SYNTH[0] += 1
+    nd = _SYNTH[0]
+    iname = it['name'] + '_index'
+
+    def iref(loc=None):
+        _SYNTH[0] += 1
+        return {'k': 'ref', 'dk': 'var', 'd': nd, 'name': iname, 'cty': 'unsigned long', 'ty': 'std::size_t', 'loc': loc, 'sid': _SYNTH[0]}
+
+    def is_it(x):
+        x = strip_conv(strip_casts(x)) if x is not None else None
+        return x is not None and x.get('k') == 'ref' and x.get('d') == it['d']
+
+    def is_begin(x):
+        x = strip_conv(strip_casts(x)) if x is not None else None
+        return x is not None and x.get('k') == 'call' and (x.get('callee') or '').split('::')[-1] in ('begin', 'cbegin') and x.get('obj') is not None and \
+            show(strip_casts(x['obj'])) == show(strip_casts(cont))
+
+    def rewrite(x):
+        if isinstance(x, list):
+            for y in x:
+                rewrite(y)
+            return
+        if not isinstance(x, dict):
+            return
+        k = x.get('k')
+        # it - v.begin()
+        if (k == 'call' and x.get('op') == '-') or (k == 'bin' and x.get('op') == '-'):
+            ops = [x.get('l'), x.get('r')] if k == 'bin' else (([x['obj']] if x.get('obj') is not None else []) + list(x.get('args', [])))
+            if len(ops) == 2 and is_it(ops[0]) and is_begin(ops[1]):
+                keep = {kk: x.get(kk) for kk in ('loc', 'sid')}
+                new = iref(keep['loc'])
+                x.clear()
+                x.update(new)
+                if keep['sid'] is not None:
+                    x['sid'] = keep['sid']
+                return
+        # *it  /  it->f
+        if k == 'call' and x.get('op') == '*' and x.get('obj') is not None and not x.get('args') and is_it(x['obj']):
+            keep = {kk: x.get(kk) for kk in ('loc', 'sid', 'cty', 'ty')}
+            x.clear()
+            x.update({'k': 'call', 'ck': 'operator', 'op': '[]', 'callee': cty.split('<')[0] + '::operator[]', 'callee_in_repo': False, 'obj': _fresh(cont), 'args': [iref(keep['loc'])],
+                      'arrow': False, 'method_const': False, 'method_static': False})
+            x.update(keep)
+            return
+        if k == 'member' and x.get('arrow') and x.get('base') is not None:
+            bb = strip_casts(x['base'])
+            if bb is not None and bb.get('k') == 'call' and bb.get('op') == '->' and bb.get('obj') is not None and is_it(bb['obj']):
+                x['base'] = {'k': 'call', 'ck': 'operator', 'op': '[]', 'callee': cty.split('<')[0] + '::operator[]', 'callee_in_repo': False, 'obj': _fresh(cont), 'args': [iref(x.get('loc'))],
+                             'arrow': False, 'method_const': False, 'method_static': False, 'cty': None, 'loc': x.get('loc'), 'sid': None}
+                x['arrow'] = False
+                return
+        if k == 'ref' and x.get('d') == it['d']:
+            keep = {kk: x.get(kk) for kk in ('loc', 'sid', 'cty', 'ty')}
+            x.clear()
+            x.update({'k': 'call', 'ck': 'operator', 'op': '+', 'callee': 'iterator::operator+', 'callee_in_repo': False, 'obj': _fresh(i0), 'args': [iref(keep['loc'])],
+                      'arrow': False, 'method_const': True, 'method_static': False, 'from_iterator': it['name']})
+            x.update(keep)
+            return
+        for kk, v in list(x.items()):
+            if kk == 'vars':
+                for vv in v:
+                    rewrite(vv.get('init'))
+            elif isinstance(v, (dict, list)):
+                rewrite(v)
+    rewrite(st.get('body'))
+    loc = it.get('loc')
+    st['init'] = {'k': 'decl', 'loc': init.get('loc'), 'sid': init.get('sid'),
+                  'vars': [{'d': nd, 'name': iname, 'cty': 'unsigned long', 'ty': 'std::size_t', 'is_ref': False, 'const': False, 'loc': loc, 'static_local': False, 'tls': False,
+                            'init': {'k': 'int', 'v': 0, 'cty': 'int', 'ty': 'int', 'loc': loc, 'sid': None}}]}
+    _SYNTH[0] += 1
+    st['c'] = {'k': 'bin', 'op': '<', 'cty': 'bool', 'loc': c.get('loc'), 'sid': c.get('sid'), 'l': iref(c.get('loc')),
+               'r': {'k': 'call', 'ck': 'method', 'callee': cty.split('<')[0] + '::size', 'callee_in_repo': False, 'obj': _fresh(cont), 'args': [], 'cty': 'unsigned long', 'arrow': False,
+                     'method_const': True, 'method_static': False, 'loc': c.get('loc'), 'sid': _SYNTH[0]}}
+    st['inc'] = {'k': 'un', 'op': '++', 'postfix': False, 'cty': 'unsigned long', 'loc': inc.get('loc'), 'sid': inc.get('sid'), 'e': iref(inc.get('loc'))}
+    st['index_loop_from_iterator'] = it['name']
 
 
 def _desugar_iterator_loop(st):
